@@ -1500,7 +1500,12 @@ class GeoboxTiles:
         if not isinstance(src.base, GeoBox):
             return None
         # src_pix = A*dst_pix
-        A = snap_affine((~src.base.transform) * self.base.transform)
+        # tolerance on scale shrinks with raster size: snapping must not move
+        # pixels at the far end by more than it is allowed to move the origin
+        n = max(*self.base.shape, *src.base.shape, 1)
+        A = snap_affine(
+            (~src.base.transform) * self.base.transform, stol=min(1e-6, 1e-3 / n)
+        )
         if is_affine_st(A):
             return A
         return None
